@@ -271,6 +271,10 @@ def c13_clauses(case, truth, grec, erec_full, par):
   best = e[0]['score'] if e else None
   for pos, d in enumerate(g):
     if sl.has_nan(d['score']):
+      # an undefined score cannot be ranked, but the design still has to be one the exhaustive search considers
+      if sl.design_key(d) not in eset and len(e) < 100000:
+        out.append(V('membership', 'greedy:design-not-in-exhaustive-set',
+                     'greedy design #%d T=%s C=%s (undefined score) is not among the %d designs ranked by the exhaustive search' % (pos, d['t'], d['c'], len(e))))
       continue
     if sl.design_key(d) not in eset:
       out.append(V('membership', 'greedy:design-not-in-exhaustive-set',
